@@ -64,7 +64,14 @@ def pdrive(variant, args, behaviours, work, tag, timeout, jobs, per_job=200):
         inp = '%s/beh%s.%d.ndjson' % (work, tag, j)
         out = '%s/res%s.%d.ndjson' % (work, tag, j)
         vf.write_ndjson(inp, behaviours[lo:lo + size])
-        res, cr = vf.drive(variant, args, inp, out, timeout=timeout)
+        for attempt in range(6):
+            try:
+                res, cr = vf.drive(variant, args, inp, out, timeout=timeout)
+                break
+            except OSError:          # the shared driver binary is being re-linked by a concurrent build
+                if attempt == 5:
+                    raise
+                time.sleep(20)
         return ({lo + i: r for i, r in res.items()}, [(lo + i, rc, t) for (i, rc, t) in cr])
     results, crashes = {}, []
     with ThreadPoolExecutor(max_workers=jobs) as ex:
@@ -192,8 +199,8 @@ def main(tier):
         run_programs(chk, tally, B['fill'][seed % 7::7], ['--jitter=13'], 'fillJ')
     run_programs(chk, tally, B['prog2'][seed % 3::3] if quick else B['prog2'], [], 'prog2')
     samples.append(prog_text(json.loads(B['prog2'][len(B['prog2']) // 2])))
-    run_programs(chk, tally, B['prog4'], [], 'prog4')
-    run_programs(chk, tally, B['batch'][seed % 2::2] if quick else B['batch'], [], 'batch')
+    run_programs(chk, tally, B['prog4'][seed % 2::2] if quick else B['prog4'], [], 'prog4')
+    run_programs(chk, tally, B['batch'][seed % 3::3] if quick else B['batch'], [], 'batch')
     samples.append(prog_text(json.loads(B['prog4'][len(B['prog4']) // 2])))
     run_programs(chk, tally, B['sim'], [], 'sim')
     samples.append(prog_text(json.loads(B['sim'][0])))
@@ -226,5 +233,19 @@ def main(tier):
 
 
 def replay(path):
-    """./check C11 --replay <file>"""
-    progfam.replay_file(path)
+    """./check C11 --replay <file> : re-run one saved program; only C11's own failure kinds count"""
+    j = json.load(open(path))
+    rp = j['replay']
+    work = '%s/work/replay' % vf.BUILD
+    os.makedirs(work, exist_ok=True)
+    vf.write_ndjson(work + '/c11.ndjson', [json.dumps(rp['behaviour'])])
+    results, crashes = vf.drive(rp.get('variant', 'seq'), rp['driver'], work + '/c11.ndjson', work + '/c11.res', timeout=900)
+    r = results.get(0, {'fail': []})
+    own = [f for f in r['fail'] if f['kind'] in OWNED]
+    print(prog_text(rp['behaviour']))
+    print(json.dumps(own, indent=1)[:4000]); print(crashes)
+    if crashes or own:
+        print('VIOLATION property=%s replay=%s' % (j['property'], path))
+        raise SystemExit(1)
+    print('replay passes')
+    raise SystemExit(0)
